@@ -722,28 +722,48 @@ Proof. unfold sdesc, solds. destruct (subset_desc flags_fix keep w); reflexivity
 Lemma has_res_vchain_of cw : has_res (vchain_of cw) = negb (Nat.eqb (length (snd cw)) 0).
 Proof. unfold has_res, vchain_of; simpl. rewrite map_length. reflexivity. Qed.
 
-Lemma subset_fix_struct h t w v keep h' t' :
-  hwf h -> walk h t = Some w -> normal (map vchain_of w) -> NoDup (map fst (walk_atoms w)) ->
-  (forall b, In b (t_bonds t) ->
-             In (b_a1 b) (map fst (walk_atoms w)) /\ In (b_a2 b) (map fst (walk_atoms w)) /\ bond_oriented h b) ->
-  abs h t = Some v ->
+(* everything about the new chains/residues/atoms and the clean-up passes; needs nothing of the source
+   but a successful walk *)
+Lemma add_bonds_mapped_ends h1 m : forall bs t1 t2 sk,
+  add_bonds_mapped h1 t1 m bs sk = Some t2 ->
+  same_but_bonds t1 t2 /\
+  exists nb, t_bonds t2 = t_bonds t1 ++ nb /\
+             forall b', In b' nb -> In (b_a1 b') (map snd m) /\ In (b_a2 b') (map snd m) /\ order_ok (b_order b') = true.
+Proof.
+  induction bs as [|b bs IH]; intros t1 t2 sk H.
+  - simpl in H. inversion H; subst. split; [repeat split|]. exists []. rewrite app_nil_r. split; [reflexivity | intros ? []].
+  - simpl in H. destruct (dict_get h1 m (b_a1 b) None) as [x|] eqn:Dx; [destruct (dict_get h1 m (b_a2 b) None) as [y|] eqn:Dy|].
+    + inv_bind H. unfold add_bond in E. destruct (order_ok (b_order b)) eqn:Eo; [|discriminate]. simpl in E.
+      inv_bind E. inv_bind E. inversion E; subst x0; clear E.
+      match type of H with add_bonds_mapped _ ?T _ _ _ = _ => set (t1' := T) in * end.
+      destruct (IH t1' t2 sk H) as [[S1 [S2 [S3 [S4 S5]]]] [nb [Hnb Hends]]].
+      split; [repeat split; assumption|].
+      eexists (_ :: nb). split; [rewrite Hnb; subst t1'; simpl; rewrite <- app_assoc; reflexivity|].
+      apply dict_get_value in Dx. apply dict_get_value in Dy.
+      intros b' [<-|Hin]; [|apply Hends; exact Hin]. destruct (a_index x1 <? a_index x2); simpl; auto.
+    + destruct sk; [|discriminate]. apply (IH t1 t2 true H).
+    + destruct sk; [|discriminate]. apply (IH t1 t2 true H).
+Qed.
+
+Lemma subset_any_struct h t w keep h' t' :
+  hwf h -> walk h t = Some w ->
   subset flags_fix h t keep = Some (h', t') ->
   let L := lay_chains (h_next h) 0 0 0 (sdesc keep w) in
+  let news := map fst (lay_chain_atoms L) in
   hwf h' /\ agree (h_next h) h h' /\ h_next h <= h_next h' /\
-  mapM (abs_chain h') (t_chains t') = Some (subset_chains keep (vt_chains v)) /\
-  mapM (abs_bond h') (t_bonds t') = Some (subset_bonds keep v) /\
-  (forall l, In l (t_chains t') -> In l (map fst L)) /\
-  t_residues t' = lay_chain_res L /\ t_atoms t' = map fst (lay_chain_atoms L) /\
+  mapM (abs_chain h') (t_chains t') = Some (subset_chains keep (map vchain_of w)) /\
+  NoDup (t_chains t') /\ (forall l, In l (t_chains t') -> In l (map fst L)) /\
+  t_residues t' = lay_chain_res L /\ t_atoms t' = news /\
   chainwise_residues h' (t_chains t') = lay_chain_res L /\
-  chainwise_atoms h' (t_chains t') = map fst (lay_chain_atoms L) /\
-  (forall b', In b' (t_bonds t') -> In (b_a1 b') (map fst (lay_chain_atoms L)) /\ In (b_a2 b') (map fst (lay_chain_atoms L))).
+  chainwise_atoms h' (t_chains t') = news /\
+  t_numAtoms t' = length (t_atoms t') /\ t_numRes t' = length (t_residues t') /\ back_ok h' t' /\
+  (forall b', In b' (t_bonds t') -> In (b_a1 b') news /\ In (b_a2 b') news /\ order_ok (b_order b') = true) /\
+  exists h1 t1 t2,
+    build_chains h empty_topo (sdesc keep w) = Some (h1, t1, news) /\
+    add_bonds_mapped h1 t1 (combine (solds keep w) news) (t_bonds t) true = Some t2 /\
+    t_bonds t' = t_bonds t2 /\ (forall l, get_a h' l = get_a h1 l).
 Proof.
-  intros Hw Hwalk Hnorm Hnd Hbonds Habs Hsub L.
-  (* the abstraction of the source *)
-  assert (Hvc : vt_chains v = map vchain_of w /\ mapM (abs_bond h) (t_bonds t) = Some (vt_bonds v)).
-  { unfold abs in Habs. unfold walk in Hwalk. rewrite (abs_chains_walk _ _ _ Hwalk) in Habs. simpl in Habs.
-    inv_bind Habs. inversion Habs; subst v. simpl. split; [reflexivity | exact E]. }
-  destruct Hvc as [Hvc Hvb].
+  intros Hw Hwalk Hsub L news.
   unfold subset in Hsub. rewrite Hwalk in Hsub. cbn [obind] in Hsub. rewrite subset_desc_pair in Hsub.
   inv_bind Hsub. destruct x as [[h1 t1] news']. rename E into Hbuild.
   inv_bind Hsub. rename x into t2. rename E into Hadd.
@@ -754,102 +774,12 @@ Proof.
   (* the build *)
   pose proof (build_chains_layout _ _ _ _ _ _ Hw Hbuild) as HL. simpl in HL. fold L in HL.
   destruct HL as [Hw1 [Hn1 [Hnews [Ht1 [Hag HLw]]]]].
-  set (news := map fst (lay_chain_atoms L)) in *. subst news'.
+  fold news in Hnews, Ht1. subst news'.
   set (W := walk_atoms w) in *.
   set (KW := filter (keep_la keep) W).
   set (olds := solds keep w) in *.
-  assert (Holds : olds = map fst KW) by (unfold olds, KW, W; apply solds_eq).
-  assert (Hlen : length olds = length news).
-  { unfold news. rewrite map_length. unfold L. rewrite lay_chain_atoms_length, natoms_desc_sdesc. reflexivity. }
-  assert (Hidx_old : map (fun x => a_index (snd x)) W = seq 0 (length W)) by (apply normal_atom_idx; exact Hnorm).
-  assert (Hidx_new : map (fun x => a_index (snd x)) (lay_chain_atoms L) = seq 0 (length (lay_chain_atoms L))).
-  { unfold L. rewrite lay_chains_idx, lay_chain_atoms_length. reflexivity. }
-  assert (Hold_get : forall l a, In (l, a) W -> get_a h l = Some a)
-    by (intros l a; apply (walk_atoms_get h (t_chains t) w); exact Hwalk).
-  assert (Hnew_get : forall l a, In (l, a) (lay_chain_atoms L) -> get_a h1 l = Some a)
-    by (apply layout_atoms_get; exact HLw).
-  assert (Hold_h1 : forall k a, get_a h k = Some a -> get_a h1 k = Some a).
-  { intros k a G. rewrite <- G. apply (Hag k). eapply hwf_lt_a; eauto. }
-  set (K := map (fun x => a_index (snd x)) KW).
-  assert (HK : K = filter (fun i => existsb (Nat.eqb i) keep) (seq 0 (length W))).
-  { unfold K, KW. rewrite <- Hidx_old.
-    exact (map_filter_comm (fun x : loc * atom => a_index (snd x)) (fun i => existsb (Nat.eqb i) keep) W). }
-  assert (HKs : StronglySorted lt K) by (rewrite HK; apply StronglySorted_filter; apply sorted_seq).
-  assert (HKnd : NoDup K).
-  { clear - HKs. induction HKs as [|x l S IH F]; constructor; [|exact IH]. intros Hin. rewrite Forall_forall in F.
-    specialize (F x Hin). lia. }
-  assert (Hrank : forall i, rank keep v i = pos_of i K 0).
-  { intros i. unfold rank, v_atoms, v_residues. rewrite Hvc, <- walk_atoms_vatoms. fold W.
-    rewrite <- filter_keep_map. fold KW. rewrite map_map. reflexivity. }
-  set (nidx := fun k => match get_a h k with Some a => pos_of (a_index a) K 0 | None => None end).
-  set (D := map fst W).
-  assert (HD_atom : forall k, In k D -> exists a, In (k, a) W /\ get_a h k = Some a).
-  { intros k Hk. unfold D in Hk. apply in_map_iff in Hk. destruct Hk as [[k' a] [Heq Hin]]. simpl in Heq; subst k'.
-    exists a. split; [exact Hin | apply Hold_get; exact Hin]. }
-  assert (HKW_in : forall x, In x KW -> In x W) by (intros x Hx; unfold KW in Hx; apply filter_In in Hx; tauto).
-  assert (Hndo : NoDup olds) by (rewrite Holds; unfold KW; apply NoDup_map_filter; exact Hnd).
-  assert (Hsome : forall k p, In k D -> nidx k = Some p ->
-             exists x ax, dict_get h1 (combine olds news) k None = Some x /\ get_a h1 x = Some ax /\ a_index ax = p).
-  { intros k p Hk Hn. destruct (HD_atom k Hk) as [a [HinW Ga]]. unfold nidx in Hn. rewrite Ga in Hn.
-    apply pos_of_shift in Hn. destruct Hn as [_ Hn]. rewrite Nat.sub_0_r in Hn.
-    unfold K in Hn. rewrite nth_error_map in Hn. destruct (nth_error KW p) as [[k' a']|] eqn:Ekw; [|discriminate].
-    simpl in Hn. inversion Hn as [Hi]. clear Hn.
-    assert ((k', a') = (k, a)).
-    { apply (idx_inj (fun x : loc * atom => a_index (snd x)) W); auto. apply HKW_in. eapply nth_error_In; eauto. }
-    inversion H; subst k' a'. clear H.
-    assert (Hplt : p < length (lay_chain_atoms L)).
-    { assert (p < length KW) by (apply nth_error_Some; congruence).
-      rewrite Holds in Hlen. unfold news in Hlen. rewrite !map_length in Hlen. lia. }
-    destruct (nth_error (lay_chain_atoms L) p) as [[x ax]|] eqn:Eq; [|apply nth_error_None in Eq; lia].
-    exists x, ax. split; [|split; [apply Hnew_get; eapply nth_error_In; eauto|]].
-    - apply dict_get_unique.
-      + rewrite combine_fst_eq by exact Hlen. exact Hndo.
-      + apply in_combine_nth with (p := p).
-        * rewrite Holds, nth_error_map, Ekw. reflexivity.
-        * unfold news. rewrite nth_error_map, Eq. reflexivity.
-      + intros k' v' Hin' Hne. apply in_combine_l in Hin'. rewrite Holds in Hin'. apply in_map_iff in Hin'.
-        destruct Hin' as [[k'' a''] [Heq Hin'']]. simpl in Heq; subst k''.
-        apply atom_eqb_idx_ne with (a := a'') (b := a); [apply Hold_h1; apply Hold_get; apply HKW_in; exact Hin'' | apply Hold_h1; exact Ga|].
-        intros Hie. apply Hne.
-        assert ((k', a'') = (k, a)) by (apply (idx_inj (fun x : loc * atom => a_index (snd x)) W); auto).
-        congruence.
-    - apply (nth_error_seq_idx (fun x => a_index (snd x)) _ 0 p (x, ax) Hidx_new Eq). }
-  assert (Hnone : forall k, In k D -> nidx k = None -> dict_get h1 (combine olds news) k None = None).
-  { intros k Hk Hn. destruct (HD_atom k Hk) as [a [HinW Ga]]. unfold nidx in Hn. rewrite Ga in Hn.
-    apply dict_get_nomatch. intros k' v' Hin'. apply in_combine_l in Hin'. rewrite Holds in Hin'. apply in_map_iff in Hin'.
-    destruct Hin' as [[k'' a''] [Heq Hin'']]. simpl in Heq; subst k''.
-    assert (Hne : a_index a'' <> a_index a).
-    { intros Hie. assert (In (a_index a) K) by (rewrite <- Hie; unfold K; apply in_map_iff; exists (k', a''); auto).
-      destruct (pos_of_in _ _ 0 H) as [p Hp]. congruence. }
-    rewrite (atom_eqb_idx_ne h1 k' k a'' a); [| apply Hold_h1; apply Hold_get; apply HKW_in; exact Hin'' | apply Hold_h1; exact Ga | exact Hne].
-    rewrite (eqb_false_ne k' k); [reflexivity|]. intros ->.
-    assert (get_a h k = Some a'') by (apply Hold_get; apply HKW_in; exact Hin''). congruence. }
-  assert (HDb : forall b, In b (t_bonds t) -> In (b_a1 b) D /\ In (b_a2 b) D).
-  { intros b Hb. destruct (Hbonds b Hb) as [B1 [B2 _]]. split; assumption. }
-  assert (Hor : forall b p q, In b (t_bonds t) -> nidx (b_a1 b) = Some p -> nidx (b_a2 b) = Some q ->
-                              p <= q /\ (p = q -> b_a1 b = b_a2 b)).
-  { intros b p q Hb N1 N2. destruct (Hbonds b Hb) as [B1 [B2 [a1 [a2 [G1 [G2 Hle]]]]]].
-    unfold nidx in N1, N2. rewrite G1 in N1. rewrite G2 in N2.
-    destruct (pos_of_mono K _ _ _ _ HKs N1 N2) as [M1 M2]. split; [apply M1; exact Hle|].
-    intros Hpq. specialize (M2 Hpq).
-    destruct (HD_atom _ B1) as [a1' [I1 G1']]. destruct (HD_atom _ B2) as [a2' [I2 G2']].
-    assert (a1' = a1) by congruence. assert (a2' = a2) by congruence. subst a1' a2'.
-    assert ((b_a1 b, a1) = (b_a2 b, a2)) by (apply (idx_inj (fun x : loc * atom => a_index (snd x)) W); auto).
-    congruence. }
-  destruct (add_bonds_mapped_skip h1 (combine olds news) nidx D Hsome Hnone (t_bonds t) t1 t2 HDb Hor true Hadd)
-    as [[S1 [S2 [S3 [S4 S5]]]] [nb [Hnb [Hnbabs Hnbends]]]].
+  destruct (add_bonds_mapped_ends h1 (combine olds news) (t_bonds t) t1 t2 true Hadd) as [[S1 [S2 [S3 [S4 S5]]]] [nb [Hnb Hnbends]]].
   assert (Ht1b : t_bonds t1 = []) by (rewrite Ht1; reflexivity). rewrite Ht1b in Hnb. simpl in Hnb.
-  assert (Hbonds_v : somes (map (fun b => match nidx (b_a1 b), nidx (b_a2 b) with
-                                          | Some p, Some q => Some {| vb_i := p; vb_j := q; vb_type := b_type b; vb_order := b_order b |}
-                                          | _, _ => None end) (t_bonds t)) = subset_bonds keep v).
-  { unfold subset_bonds. clear - Hvb Hrank. revert Hvb. generalize (vt_bonds v). generalize (t_bonds t).
-    induction l as [|b bs IH]; intros vbs Hvb.
-    - inversion Hvb; subst. reflexivity.
-    - apply mapM_cons_some in Hvb. destruct Hvb as [vb [vr [Hb [Hl ->]]]].
-      unfold abs_bond in Hb. inv_bind Hb. inv_bind Hb. inversion Hb; subst vb; clear Hb.
-      simpl. unfold nidx at 1 2. rewrite E, E0. rewrite !Hrank.
-      destruct (pos_of (a_index x) K 0); [destruct (pos_of (a_index x0) K 0)|]; simpl; rewrite (IH _ Hl); reflexivity. }
-  rewrite Hbonds_v in Hnbabs.
   (* the clean-up passes *)
   assert (Hc2 : t_chains t2 = map fst L) by (rewrite S1, Ht1; reflexivity).
   assert (Hr2 : t_residues t2 = lay_chain_res L) by (rewrite S2, Ht1; reflexivity).
@@ -952,9 +882,9 @@ Proof.
     rewrite Fc3 by exact Hni. destruct (Hl2 l) as [_ [_ C2]]. congruence. }
   split; [exact Hw4|]. split; [exact Hag4|]. split; [rewrite Hnext4; lia|].
   simpl.
-  assert (Hchains_abs : mapM (abs_chain h4) (map fst L') = Some (subset_chains keep (vt_chains v))).
+  assert (Hchains_abs : mapM (abs_chain h4) (map fst L') = Some (subset_chains keep (map vchain_of w))).
   { rewrite (abs_chains_reidx h4 L' 0).
-    - unfold subset_chains. rewrite Hvc. rewrite <- (reidx_c_filter_renum 0 0 0 0). f_equal. f_equal.
+    - unfold subset_chains. rewrite <- (reidx_c_filter_renum 0 0 0 0). f_equal. f_equal.
       rewrite <- num_chains_subset, <- lay_chains_num with (n := h_next h). fold L. unfold L'.
       clear. induction L as [|[x cw] L0 IH]; [reflexivity|]. simpl. rewrite has_res_vchain_of. unfold q at 1. simpl.
       destruct (negb (Nat.eqb (length (snd cw)) 0)); simpl; rewrite IH; reflexivity.
@@ -976,21 +906,158 @@ Proof.
           simpl. rewrite (abs_res_walk _ _ _ Hb), (IH _ Hl). reflexivity. }
       rewrite E. reflexivity. }
   split; [exact Hchains_abs|].
-  split.
-  { rewrite Hnb. rewrite <- Hnbabs. apply mapM_ext_in. intros b _. unfold abs_bond. rewrite !Ha41. reflexivity. }
+  split; [exact HndL'|].
   split; [intros l Hin; apply in_map_iff in Hin; destruct Hin as [e [<- Hin]]; apply in_map_iff; exists e; split; [reflexivity | apply HL'in; exact Hin]|].
   split; [exact Hres_id|]. split; [reflexivity|].
   assert (Hcw4 : chainwise_residues h4 (map fst L') = lay_chain_res L).
   { rewrite <- Hcw3. unfold chainwise_residues. f_equal. apply map_ext. intros c. rewrite Hc43. reflexivity. }
   split; [exact Hcw4|].
-  split.
+  assert (Hca4 : chainwise_atoms h4 (map fst L') = news).
   { unfold chainwise_atoms. rewrite Hcw4.
     destruct (chainwise_of_walk _ _ _ (walk_of_layout _ _ HLw)) as [_ CA]. rewrite walk_atoms_layout in CA.
     unfold chainwise_atoms in CA. rewrite Hcw1 in CA. unfold news. rewrite <- CA. f_equal. apply map_ext. intros r. rewrite Hr41. reflexivity. }
-  intros b' Hin. rewrite Hnb in Hin. destruct (Hnbends b' Hin) as [E1 [E2 _]].
+  split; [exact Hca4|].
+  split; [rewrite Hca4; reflexivity|]. split; [rewrite Hcw4, Hres_id; reflexivity|].
+  split.
+  { intros l a Hin G. simpl in Hin. simpl. rewrite Hres_id. rewrite Ha41 in G. unfold news in Hin. apply in_map_iff in Hin.
+    destruct Hin as [[l' a'] [Heq Hin]]. simpl in Heq; subst l'. assert (get_a h1 l = Some a') by (eapply layout_atoms_get; eauto).
+    assert (a' = a) by congruence. subst a'. eapply lay_chains_back; eauto. }
   assert (Hsnd : forall x, In x (map snd (combine olds news)) -> In x news).
   { intros x Hx. apply in_map_iff in Hx. destruct Hx as [[k0 v0] [Heq Hx]]. simpl in Heq; subst v0. eapply in_combine_r; eauto. }
-  split; apply Hsnd; assumption.
+  split.
+  { intros b' Hin. rewrite Hnb in Hin. destruct (Hnbends b' Hin) as [E1 [E2 E3]]. split; [apply Hsnd; exact E1|]. split; [apply Hsnd; exact E2 | exact E3]. }
+  exists h1, t1, t2. split; [exact Hbuild|]. split; [exact Hadd|]. split; [reflexivity | exact Ha41].
+Qed.
+
+Lemma subset_fix_struct h t w v keep h' t' :
+  hwf h -> walk h t = Some w -> normal (map vchain_of w) -> NoDup (map fst (walk_atoms w)) ->
+  (forall b, In b (t_bonds t) ->
+             In (b_a1 b) (map fst (walk_atoms w)) /\ In (b_a2 b) (map fst (walk_atoms w)) /\ bond_oriented h b) ->
+  abs h t = Some v ->
+  subset flags_fix h t keep = Some (h', t') ->
+  let L := lay_chains (h_next h) 0 0 0 (sdesc keep w) in
+  hwf h' /\ agree (h_next h) h h' /\ h_next h <= h_next h' /\
+  mapM (abs_chain h') (t_chains t') = Some (subset_chains keep (vt_chains v)) /\
+  mapM (abs_bond h') (t_bonds t') = Some (subset_bonds keep v) /\
+  (forall l, In l (t_chains t') -> In l (map fst L)) /\
+  t_residues t' = lay_chain_res L /\ t_atoms t' = map fst (lay_chain_atoms L) /\
+  chainwise_residues h' (t_chains t') = lay_chain_res L /\
+  chainwise_atoms h' (t_chains t') = map fst (lay_chain_atoms L) /\
+  (forall b', In b' (t_bonds t') -> In (b_a1 b') (map fst (lay_chain_atoms L)) /\ In (b_a2 b') (map fst (lay_chain_atoms L))).
+Proof.
+  intros Hw Hwalk Hnorm Hnd Hbonds Habs Hsub L.
+  (* the abstraction of the source *)
+  assert (Hvc : vt_chains v = map vchain_of w /\ mapM (abs_bond h) (t_bonds t) = Some (vt_bonds v)).
+  { unfold abs in Habs. unfold walk in Hwalk. rewrite (abs_chains_walk _ _ _ Hwalk) in Habs. simpl in Habs.
+    inv_bind Habs. inversion Habs; subst v. simpl. split; [reflexivity | exact E]. }
+  destruct Hvc as [Hvc Hvb].
+  destruct (subset_any_struct h t w keep h' t' Hw Hwalk Hsub)
+    as [Hw4 [Hag4 [Hle4 [Hchains [_ [Hcin [Hr4 [Ha4 [Hcr4 [Hca4 [_ [_ [_ [Hbe4 [h1 [t1 [t2 [Hbuild [Hadd [Hb4 Ha41]]]]]]]]]]]]]]]]]]]].
+  fold L in Hchains, Hcin, Hr4, Ha4, Hcr4, Hca4, Hbe4, Hbuild, Hadd.
+  pose proof (build_chains_layout _ _ _ _ _ _ Hw Hbuild) as HL. simpl in HL. fold L in HL.
+  destruct HL as [Hw1 [Hn1 [_ [Ht1 [Hag HLw]]]]].
+  set (news := map fst (lay_chain_atoms L)) in *.
+  set (W := walk_atoms w) in *.
+  set (KW := filter (keep_la keep) W).
+  set (olds := solds keep w) in *.
+  assert (Holds : olds = map fst KW) by (unfold olds, KW, W; apply solds_eq).
+  assert (Hlen : length olds = length news).
+  { unfold news. rewrite map_length. unfold L. rewrite lay_chain_atoms_length, natoms_desc_sdesc. reflexivity. }
+  assert (Hidx_old : map (fun x => a_index (snd x)) W = seq 0 (length W)) by (apply normal_atom_idx; exact Hnorm).
+  assert (Hidx_new : map (fun x => a_index (snd x)) (lay_chain_atoms L) = seq 0 (length (lay_chain_atoms L))).
+  { unfold L. rewrite lay_chains_idx, lay_chain_atoms_length. reflexivity. }
+  assert (Hold_get : forall l a, In (l, a) W -> get_a h l = Some a)
+    by (intros l a; apply (walk_atoms_get h (t_chains t) w); exact Hwalk).
+  assert (Hnew_get : forall l a, In (l, a) (lay_chain_atoms L) -> get_a h1 l = Some a)
+    by (apply layout_atoms_get; exact HLw).
+  assert (Hold_h1 : forall k a, get_a h k = Some a -> get_a h1 k = Some a).
+  { intros k a G. rewrite <- G. apply (Hag k). eapply hwf_lt_a; eauto. }
+  set (K := map (fun x => a_index (snd x)) KW).
+  assert (HK : K = filter (fun i => existsb (Nat.eqb i) keep) (seq 0 (length W))).
+  { unfold K, KW. rewrite <- Hidx_old.
+    exact (map_filter_comm (fun x : loc * atom => a_index (snd x)) (fun i => existsb (Nat.eqb i) keep) W). }
+  assert (HKs : StronglySorted lt K) by (rewrite HK; apply StronglySorted_filter; apply sorted_seq).
+  assert (HKnd : NoDup K).
+  { clear - HKs. induction HKs as [|x l S IH F]; constructor; [|exact IH]. intros Hin. rewrite Forall_forall in F.
+    specialize (F x Hin). lia. }
+  assert (Hrank : forall i, rank keep v i = pos_of i K 0).
+  { intros i. unfold rank, v_atoms, v_residues. rewrite Hvc, <- walk_atoms_vatoms. fold W.
+    rewrite <- filter_keep_map. fold KW. rewrite map_map. reflexivity. }
+  set (nidx := fun k => match get_a h k with Some a => pos_of (a_index a) K 0 | None => None end).
+  set (D := map fst W).
+  assert (HD_atom : forall k, In k D -> exists a, In (k, a) W /\ get_a h k = Some a).
+  { intros k Hk. unfold D in Hk. apply in_map_iff in Hk. destruct Hk as [[k' a] [Heq Hin]]. simpl in Heq; subst k'.
+    exists a. split; [exact Hin | apply Hold_get; exact Hin]. }
+  assert (HKW_in : forall x, In x KW -> In x W) by (intros x Hx; unfold KW in Hx; apply filter_In in Hx; tauto).
+  assert (Hndo : NoDup olds) by (rewrite Holds; unfold KW; apply NoDup_map_filter; exact Hnd).
+  assert (Hsome : forall k p, In k D -> nidx k = Some p ->
+             exists x ax, dict_get h1 (combine olds news) k None = Some x /\ get_a h1 x = Some ax /\ a_index ax = p).
+  { intros k p Hk Hn. destruct (HD_atom k Hk) as [a [HinW Ga]]. unfold nidx in Hn. rewrite Ga in Hn.
+    apply pos_of_shift in Hn. destruct Hn as [_ Hn]. rewrite Nat.sub_0_r in Hn.
+    unfold K in Hn. rewrite nth_error_map in Hn. destruct (nth_error KW p) as [[k' a']|] eqn:Ekw; [|discriminate].
+    simpl in Hn. inversion Hn as [Hi]. clear Hn.
+    assert ((k', a') = (k, a)).
+    { apply (idx_inj (fun x : loc * atom => a_index (snd x)) W); auto. apply HKW_in. eapply nth_error_In; eauto. }
+    inversion H; subst k' a'. clear H.
+    assert (Hplt : p < length (lay_chain_atoms L)).
+    { assert (p < length KW) by (apply nth_error_Some; congruence).
+      rewrite Holds in Hlen. unfold news in Hlen. rewrite !map_length in Hlen. lia. }
+    destruct (nth_error (lay_chain_atoms L) p) as [[x ax]|] eqn:Eq; [|apply nth_error_None in Eq; lia].
+    exists x, ax. split; [|split; [apply Hnew_get; eapply nth_error_In; eauto|]].
+    - apply dict_get_unique.
+      + rewrite combine_fst_eq by exact Hlen. exact Hndo.
+      + apply in_combine_nth with (p := p).
+        * rewrite Holds, nth_error_map, Ekw. reflexivity.
+        * unfold news. rewrite nth_error_map, Eq. reflexivity.
+      + intros k' v' Hin' Hne. apply in_combine_l in Hin'. rewrite Holds in Hin'. apply in_map_iff in Hin'.
+        destruct Hin' as [[k'' a''] [Heq Hin'']]. simpl in Heq; subst k''.
+        apply atom_eqb_idx_ne with (a := a'') (b := a); [apply Hold_h1; apply Hold_get; apply HKW_in; exact Hin'' | apply Hold_h1; exact Ga|].
+        intros Hie. apply Hne.
+        assert ((k', a'') = (k, a)) by (apply (idx_inj (fun x : loc * atom => a_index (snd x)) W); auto).
+        congruence.
+    - apply (nth_error_seq_idx (fun x => a_index (snd x)) _ 0 p (x, ax) Hidx_new Eq). }
+  assert (Hnone : forall k, In k D -> nidx k = None -> dict_get h1 (combine olds news) k None = None).
+  { intros k Hk Hn. destruct (HD_atom k Hk) as [a [HinW Ga]]. unfold nidx in Hn. rewrite Ga in Hn.
+    apply dict_get_nomatch. intros k' v' Hin'. apply in_combine_l in Hin'. rewrite Holds in Hin'. apply in_map_iff in Hin'.
+    destruct Hin' as [[k'' a''] [Heq Hin'']]. simpl in Heq; subst k''.
+    assert (Hne : a_index a'' <> a_index a).
+    { intros Hie. assert (In (a_index a) K) by (rewrite <- Hie; unfold K; apply in_map_iff; exists (k', a''); auto).
+      destruct (pos_of_in _ _ 0 H) as [p Hp]. congruence. }
+    rewrite (atom_eqb_idx_ne h1 k' k a'' a); [| apply Hold_h1; apply Hold_get; apply HKW_in; exact Hin'' | apply Hold_h1; exact Ga | exact Hne].
+    rewrite (eqb_false_ne k' k); [reflexivity|]. intros ->.
+    assert (get_a h k = Some a'') by (apply Hold_get; apply HKW_in; exact Hin''). congruence. }
+  assert (HDb : forall b, In b (t_bonds t) -> In (b_a1 b) D /\ In (b_a2 b) D).
+  { intros b Hb. destruct (Hbonds b Hb) as [B1 [B2 _]]. split; assumption. }
+  assert (Hor : forall b p q, In b (t_bonds t) -> nidx (b_a1 b) = Some p -> nidx (b_a2 b) = Some q ->
+                              p <= q /\ (p = q -> b_a1 b = b_a2 b)).
+  { intros b p q Hb N1 N2. destruct (Hbonds b Hb) as [B1 [B2 [a1 [a2 [G1 [G2 Hle]]]]]].
+    unfold nidx in N1, N2. rewrite G1 in N1. rewrite G2 in N2.
+    destruct (pos_of_mono K _ _ _ _ HKs N1 N2) as [M1 M2]. split; [apply M1; exact Hle|].
+    intros Hpq. specialize (M2 Hpq).
+    destruct (HD_atom _ B1) as [a1' [I1 G1']]. destruct (HD_atom _ B2) as [a2' [I2 G2']].
+    assert (a1' = a1) by congruence. assert (a2' = a2) by congruence. subst a1' a2'.
+    assert ((b_a1 b, a1) = (b_a2 b, a2)) by (apply (idx_inj (fun x : loc * atom => a_index (snd x)) W); auto).
+    congruence. }
+  destruct (add_bonds_mapped_skip h1 (combine olds news) nidx D Hsome Hnone (t_bonds t) t1 t2 HDb Hor true Hadd)
+    as [[S1 [S2 [S3 [S4 S5]]]] [nb [Hnb [Hnbabs Hnbends]]]].
+  assert (Ht1b : t_bonds t1 = []) by (rewrite Ht1; reflexivity). rewrite Ht1b in Hnb. simpl in Hnb.
+  assert (Hbonds_v : somes (map (fun b => match nidx (b_a1 b), nidx (b_a2 b) with
+                                          | Some p, Some q => Some {| vb_i := p; vb_j := q; vb_type := b_type b; vb_order := b_order b |}
+                                          | _, _ => None end) (t_bonds t)) = subset_bonds keep v).
+  { unfold subset_bonds. clear - Hvb Hrank. revert Hvb. generalize (vt_bonds v). generalize (t_bonds t).
+    induction l as [|b bs IH]; intros vbs Hvb.
+    - inversion Hvb; subst. reflexivity.
+    - apply mapM_cons_some in Hvb. destruct Hvb as [vb [vr [Hb [Hl ->]]]].
+      unfold abs_bond in Hb. inv_bind Hb. inv_bind Hb. inversion Hb; subst vb; clear Hb.
+      simpl. unfold nidx at 1 2. rewrite E, E0. rewrite !Hrank.
+      destruct (pos_of (a_index x) K 0); [destruct (pos_of (a_index x0) K 0)|]; simpl; rewrite (IH _ Hl); reflexivity. }
+  rewrite Hbonds_v in Hnbabs.
+  split; [exact Hw4|]. split; [exact Hag4|]. split; [exact Hle4|].
+  split; [rewrite Hvc; exact Hchains|].
+  split.
+  { rewrite Hb4, Hnb. rewrite <- Hnbabs. apply mapM_ext_in. intros b _. unfold abs_bond. rewrite !Ha41. reflexivity. }
+  split; [exact Hcin|]. split; [exact Hr4|]. split; [exact Ha4|]. split; [exact Hcr4|]. split; [exact Hca4|].
+  intros b' Hin. destruct (Hbe4 b' Hin) as [E1 [E2 _]]. split; assumption.
 Qed.
 
 Section SubsetFix.
